@@ -381,6 +381,14 @@ func (m *c02Monitor) AfterBeginBlock(r *Run, ctx sdk.Context) {
 
 func (m *c02Monitor) BeforeTx(r *Run, ctx sdk.Context, tx *BuiltTx) { m.pre = r.Ledger(ctx) }
 
+// AfterDirect: a direct slash ends every open round trip, like a slash in BeginBlock.
+func (m *c02Monitor) AfterDirect(r *Run, ctx sdk.Context, op Op) {
+	if op.K == "kslash" {
+		m.trips = map[string]*roundTrip{}
+		m.check(r, r.Ledger(ctx), "direct-slash")
+	}
+}
+
 func (m *c02Monitor) AfterTx(r *Run, ctx sdk.Context, tx *TxResult) {
 	cur := r.Ledger(ctx)
 	what := "tx:" + tx.Op.K
